@@ -530,7 +530,7 @@ func (m *monC04) AfterTx(w *World, tx *TxCtx) {
 			L = new(big.Int)
 		}
 		F := tx.Fee.AmountOf(ent.Denom).BigInt()
-		ok := tx.AntePassed && hasRegistryMsg(tx.Msgs) && L.Sign() > 0 && d.Sign() < 0 && new(big.Int).Neg(d).Cmp(minBig(F, L)) == 0
+		ok := tx.AntePassed && hasRegistryLeaf(tx.Msgs) && L.Sign() > 0 && d.Sign() < 0 && new(big.Int).Neg(d).Cmp(minBig(F, L)) == 0
 		if !ok {
 			cl := "C04/escrow-debited-by-transaction"
 			if d.Sign() > 0 {
@@ -795,7 +795,9 @@ type monC17 struct{ BaseMonitor }
 
 func (m *monC17) Name() string { return "C17" }
 
-func (m *monC17) AfterBlock(w *World) { m.check(w, w.CCtx(), &QuerySpec{Kind: "supply.total", Limit: 100}) }
+func (m *monC17) AfterBlock(w *World) {
+	m.check(w, w.CCtx(), &QuerySpec{Kind: "supply.total", Limit: 100})
+}
 
 func (m *monC17) OnQuery(w *World, q *QuerySpec, mid bool) {
 	if !strings.HasPrefix(q.Kind, "supply.") {
